@@ -288,7 +288,13 @@ def make_field(e, case):
         name = "f%d" % e["n"]
     if case["op"].endswith("_indexed"):
         col = [unhx(h).decode("utf-8") for h in case["col"]]
-        f = df.create_indexed_string(name) if hdf5 else fields.IndexedStringMemField(s)
+        # the field's chunk size (its write staging, and what any row-chunked reader of the column would use) is the library's
+        # default, or smaller than the column, so that a column spans several chunks: set semantics must not notice
+        cs = [None, 2, 3, 1][case.get("_n", 0) % 4]
+        if cs is None:
+            f = df.create_indexed_string(name) if hdf5 else fields.IndexedStringMemField(s)
+        else:
+            f = df.create_indexed_string(name, chunksize=cs) if hdf5 else fields.IndexedStringMemField(s, chunksize=cs)
         f.data.write(col)
         return f, name
     ft = case["ftype"]
